@@ -45,7 +45,7 @@ struct sentence_s {
 };
 
 struct object_s {
-    unsigned short ref;		/* Reference count. */
+    unsigned int ref;		/* Reference count. */
     unsigned short flags;	/* Bits or'ed together from above */
     char *name;
     struct object_s *next_hash;
